@@ -20,6 +20,7 @@ import (
 	"encoding/json"
 	"fmt"
 	"iter"
+	"reflect"
 	"sort"
 	"strconv"
 	"strings"
@@ -365,6 +366,99 @@ func (w *world[K]) elems(l []kvp) []elem[K] {
 	return out
 }
 
+// ---- non-scalar value types for the codec round trip (op vrt). Each value is derived from an integer
+// seed; after decoding, the value found under a key must be reflect.DeepEqual to the one stored, else
+// the entry prints as "?" (diverging from the model, which treats values as opaque items).
+type ov struct {
+	ID int    `json:"id" yaml:"id"`
+	A  int    `json:"a,omitempty" yaml:"a,omitempty"`
+	B  string `json:"b,omitempty" yaml:"b,omitempty"`
+	C  []int  `json:"c,omitempty" yaml:"c,omitempty"`
+	D  *int   `json:"d,omitempty" yaml:"d,omitempty"`
+}
+
+func deriveSlice(v int) []int {
+	out := make([]int, v%3+1)
+	for i := range out {
+		out[i] = v*10 + i
+	}
+	return out
+}
+
+func deriveStruct(v int) ov {
+	o := ov{ID: v}
+	if v%2 == 1 {
+		o.A = v
+	}
+	if v%3 != 0 {
+		o.B = "s" + strconv.Itoa(v)
+	}
+	if v%4 >= 2 {
+		o.C = []int{v, v + 1}
+	}
+	if v%5 == 0 {
+		d := v
+		o.D = &d
+	}
+	return o
+}
+
+func deriveNested(v int) map[string][]int {
+	return map[string][]int{"x": {v, v + 1}, "n" + strconv.Itoa(v): {v}}
+}
+
+func vrt[K comparable, V any](w *world[K], codec string, ps []kvp, derive func(int) V, probe []byte) string {
+	var m part.Map[K, V]
+	sh := map[string]int{}
+	for _, p := range ps {
+		m = m.Set(w.toK([]byte(p.k)), derive(p.v))
+		sh[p.k] = p.v
+	}
+	var dst part.Map[K, V]
+	var err error
+	var bs []byte
+	if codec == "j" {
+		if bs, err = json.Marshal(m); err == nil {
+			err = json.Unmarshal(bs, &dst)
+		}
+	} else {
+		if bs, err = yaml.Marshal(m); err == nil {
+			err = yaml.Unmarshal(bs, &dst)
+		}
+	}
+	if err != nil {
+		w.flag("roundtrip")
+		return w.line("P", "err", probe, "")
+	}
+	var sb strings.Builder
+	n := 0
+	for k, v := range dst.All() {
+		kb := string(w.fromK(k))
+		if n > 0 {
+			sb.WriteByte(',')
+		}
+		n++
+		sb.WriteString(hx.Hex([]byte(kb)))
+		sb.WriteByte(':')
+		if seed, ok := sh[kb]; ok && reflect.DeepEqual(v, derive(seed)) {
+			sb.WriteString(strconv.Itoa(seed))
+		} else {
+			sb.WriteByte('?')
+			w.flag("roundtrip")
+		}
+	}
+	if n != len(sh) || dst.Len() != len(sh) || !m.SlowEqual(dst) || !dst.SlowEqual(m) {
+		w.flag("roundtrip")
+	}
+	// the source must be untouched by encoding/decoding
+	for k, v := range m.All() {
+		if !reflect.DeepEqual(v, derive(sh[string(w.fromK(k))])) {
+			w.flag("persist")
+		}
+	}
+	return w.line("P", "rt["+sb.String()+"]", probe, "")
+}
+
 func seqAssign(l []kvp) map[string]int {
 	sh := map[string]int{}
 	for _, p := range l {
@@ -612,6 +706,16 @@ func (w *world[K]) op(f []string) string {
 			}
 		}
 		return w.line("M", "tbf="+b2s(fn != nil), nil, "")
+	case "vrt":
+		ps, probe := parsePairs(f[3:]), firstKey(f[3:])
+		switch f[2] {
+		case "s":
+			return vrt(w, f[1], ps, deriveSlice, probe)
+		case "o":
+			return vrt(w, f[1], ps, deriveStruct, probe)
+		default:
+			return vrt(w, f[1], ps, deriveNested, probe)
+		}
 	case "eqall":
 		var sb strings.Builder
 		sb.WriteString("eq")
